@@ -15,6 +15,7 @@
 import DDProofs.ApiLevels
 import DDProofs.ApiPred
 import DDProofs.ApiReduction
+import DDProofs.ApiXCopyProofs
 import DDProps.Histories
 import DDProps.C03
 import DDProps.C11
@@ -134,6 +135,20 @@ theorem C11_copy_method (s : Tbl) (hS : WFU s) (hVs : VarsBij s) (m : Mgr) (hI :
     ∃ r m', copyMethod s u m = (.ok r, m') ∧ denName m'.tbl r = denName s u :=
   C11_copyBdd_denN s hS hVs m hI hoff hVm u hu hsup
 
+/-- C11 (`dd._copy.copy_bdd(u, target)` / each element of `copy_bdds_from`: the copy through the
+public `Function` interface): `s` is the node table of the manager of `u`, `m` the target with
+reordering not enabled, every variable of the support of `u` declared in it.  The call returns
+normally; the copy denotes the same function of the variable NAMES whatever the two orders;
+the target keeps its invariant and only gains nodes (what it held keeps its meaning); copies of
+regular references are regular. -/
+theorem C11_copy_bdd_public (s : Tbl) (hS : WFU s) (hVs : VarsBij s) (m : Mgr) (hI : Inv m)
+    (hoff : m.lastLen = none) (hVm : VarsBij m.tbl) (u : Int) (hu : s.Mem u)
+    (hsup : ∀ i v, InSupp s u i → s.l2v[i]? = some v → m.tbl.vars.contains v = true) :
+    ∃ r m', xcopyBody s u m = (.ok r, m') ∧ Inv m' ∧ Ext m.tbl m'.tbl ∧ m'.tbl.Mem r ∧
+      (0 < r ↔ 0 < u) ∧ denName m'.tbl r = denName s u := by
+  obtain ⟨r, m', h1, h2, h3, h4, _, h6, h7⟩ := xcopyBody_spec s hS.toWF hVs m hI hoff hVm u hu hsup
+  exact ⟨r, m', h1, h2, h3, h4, h6, h7⟩
+
 /-! ## non-vacuity -/
 
 /-- the state of the example history before the release: nodes 2, 3, 4 -/
@@ -164,6 +179,20 @@ example : ∃ p, updatePredecessors [1, 4, 2, 3] (predClear apiExM).2 =
 example := C18_levels apiExM.tbl apiExM_good.inv.wf.toWF true [1, 4, 2, 3] apiExM_order
 example : (levelsIter apiExM.tbl false [1, 4, 2, 3]).map (·.1) = [1, 3, 4, 2] := by decide
 example := C18_iter apiExM.tbl apiExM_good.inv.wf.toWF
+/-- the hypotheses of `C11_copy_bdd_public` (those of `C11_copyBdd_denN`) are satisfiable with a
+non-terminal node: copy within the witness manager's own variables -/
+example : ∃ (s : Tbl) (m : Mgr) (u : Int) (r : Int) (m' : Mgr), u.natAbs ≠ 1 ∧
+    xcopyBody s u m = (.ok r, m') ∧ denName m'.tbl r = denName s u := by
+  obtain ⟨m, u, hI, hoff, hV, hu, hx, hn, hd, _⟩ := witness
+  have h1 : u.natAbs ≠ 1 := by
+    intro h1
+    rcases abs_one h1 with h | h <;> subst h
+    · have := hd (fun _ => false); rw [den_one] at this; cases this
+    · have := hd (fun _ => true); rw [den_neg_one] at this; cases this
+  obtain ⟨r, m', he, _, _, _, _, hden⟩ := C11_copy_bdd_public m.tbl hI.wf hV m hI hoff hV u hu
+    (fun i v _ hv => by
+      rw [TreeMap.contains_eq_isSome_getElem?, hV.l2v i v hv]; rfl)
+  exact ⟨m.tbl, m, u, r, m', h1, he, hden⟩
 example := C14_var_levels_view apiExM.tbl apiExM_good.order
 example : varLevels apiExM.tbl = [("a", 0), ("b", 1)] := by decide
 
